@@ -1,7 +1,7 @@
 (* Props/C02.v — property C02: theorems only; each closed by [exact] of a lemma proved elsewhere, followed by
    Print Assumptions. The statements are about every trace admitted by the protocol model (Sim/Proto.v,
    rules with constants regenerated from /repo), at every position of the trace. *)
-From LE Require Import Base Ev World Mon Mon2 Proto Consts GenGuards Config ConfigSpec GenConfig SimBasics SimOwn SimCallbacks SimTheorems GuardFacts Timing Witness Env EnvT SimRefresh SimLease SimLeaseT Witness2.
+From LE Require Import Base Ev World Mon Mon2 Proto Consts GenGuards Config ConfigSpec GenConfig SimBasics SimOwn SimCallbacks SimTheorems GuardFacts Timing Witness Env EnvT SimRefresh SimLease SimLeaseT SimLeaseC Witness2.
 Open Scope Z_scope.
 
 Theorem C02_acquisition_only_when_vacant :
@@ -66,3 +66,22 @@ Print Assumptions C02_partial_one_claimant_while_the_store_is_fast.
 Theorem C02_partial_fast_store_nonvacuous : admits base0 lease_witness = true /\ envT_admits base0 lease_witness = true.
 Proof. exact (conj lease_witness_admitted lease_witness_envT). Qed.
 Print Assumptions C02_partial_fast_store_nonvacuous.
+
+(* The statement with nothing assumed about refreshes (Proofs/SimLeaseC.v): in the fast-store environment [envC_admits]
+   (EnvT.v: calls in flight younger than H/2 and answered without transport fault, 0 < H, 3 H <= the bucket's maximum age,
+   no early expiry, no outside writer, no health checker, no takeover, no Delete under a holder) every refresh attempt of
+   a claiming instance succeeds - it goes against the key's latest revision, attempts of a term are sequential, and
+   attempts left over from earlier terms expect a revision older than the write the running term rests on - hence the
+   record never ages out under its holder, hence at most one claimant, backed by its record.
+   PARTIAL only in this: "no Delete takes effect on a key under a holder" stays a hypothesis (the recorded residual of D5),
+   and instances with a health checker are outside the environment. *)
+Theorem C02_one_claimant_backed_by_its_record_while_the_store_is_fast :
+  forall tr, admits base0 tr = true -> envC_admits base0 tr = true ->
+  forall pre te post, tr = pre ++ te :: post ->
+    ~ In 201 (mon_C02 (bapply (brun pre) te) te) /\ ~ In 202 (mon_C02 (bapply (brun pre) te) te).
+Proof. exact C02_mutual_exclusion_fast_store_full. Qed.
+Print Assumptions C02_one_claimant_backed_by_its_record_while_the_store_is_fast.
+
+Theorem C02_fast_store_nonvacuous : admits base0 lease_witness = true /\ envC_admits base0 lease_witness = true.
+Proof. exact (conj lease_witness_admitted lease_witness_envC). Qed.
+Print Assumptions C02_fast_store_nonvacuous.
